@@ -52,7 +52,12 @@ RULE = (
     "(receiver description, accessor form); history: every sequence of copy / mutate operations up to the tier depth per "
     "object description. distinct = hash of (case, result summary / value fingerprint of all objects); non-trivial = the "
     "call returned normally and had at least one watched tensor argument (func), the accessor returned a new object "
-    "(accessor), the history contains a copy and a later mutation that actually changed the mutated object (history)"
+    "(accessor), the history contains a copy and a later mutation that actually changed the mutated object (history). "
+    "eval: every (transform description, evaluation method), executed twice. chain: every derivation chain of length <= 3 "
+    "(inverse / inverse(link) / inv / link(partner with parameters | parameter-less partner) / unlink / copy / condition / "
+    "data / grid applied to the LAST derived object, update() of the last object in between) from every transform with "
+    "NON-ZERO parameters of kind Parameter / buffer / callable, fresh and updated; after every step the fingerprint (bitwise "
+    "values, identity, _version) of EVERY earlier live object is compared; non-trivial = the chain has >= 3 live objects"
 )
 EXPLANATION = "before/after comparison of every argument and receiver over the whole API surface and over bounded copy/mutate histories"
 ASSUMPTIONS = [
@@ -61,10 +66,13 @@ ASSUMPTIONS = [
     "explicit in-place variants (inplace=True, out=, trailing underscore) are excluded from the func and accessor menus",
     "lazy evaluation methods of transforms (tensor(), disp(), __call__, update()) may register buffers by design and are not accessors",
     "objects related only by shallow copies share tensors by design; only deep-copy independence is judged in histories",
+    "derivation chains: a non-underscore accessor must leave its receiver AND every ancestor the receiver was derived from untouched",
+    "states that contain uninitialised memory by construction (never-updated callable parameters, link to a parameter-less partner, "
+    "unlink) are hashed by structure only; before/after comparisons inside one process are exact",
 ]
-MIN_NONTRIVIAL = {"quick": 7000, "thorough": 150000}  # measured 15132 / 376636
-MIN_OUTCOMES = {"quick": 14000, "thorough": 300000}  # measured 29086 / 757314
-MIN_SUB_TRACES = {"func": 4000, "accessor": 1900, "history": 9000, "eval": 1500}  # measured (quick) 5980 / 3850 / 19256
+MIN_NONTRIVIAL = {"quick": 40000, "thorough": 150000}  # measured quick 87679
+MIN_OUTCOMES = {"quick": 55000, "thorough": 300000}  # measured quick 110956
+MIN_SUB_TRACES = {"func": 4000, "accessor": 2000, "history": 12000, "eval": 1900, "chain": 35000}  # measured (quick) 6268 / 4230 / 25756 / 3800 / 70902
 
 
 # ---------------------------------------------------------------------------
@@ -311,6 +319,8 @@ def build_transform(spec):
             t = C(grid, params=values, **kw)
         elif pkind == "callable":
             t = C(grid, params=ConstParams(values), **kw)
+        elif pkind == "none":
+            return C(grid, params=None, **kw)  # parameter-less partner for link()
         else:
             raise KeyError(pkind)
     if spec.get("pre") == "updated":
@@ -617,6 +627,8 @@ def transform_menu(spec):
             "data(own)": lambda t, c: t.data(t.data()),
             "data(N=2)": lambda t, c: t.data(c.t("arg", pvals(t).repeat((2,) + (1,) * (pvals(t).ndim - 1)))),
             "link(twin)": lambda t, c: t.link(build_transform(spec)),
+            "link(empty)": lambda t, c: t.link(build_transform(dict(spec, params="none", pre="fresh"))),
+            "link(twin-other-kind)": lambda t, c: t.link(build_transform(dict(spec, params="buffer" if spec.get("params") != "buffer" else "parameter"))),
             "unlink()": lambda t, c: t.unlink(),
         })
     if cls in LINEAR:
@@ -862,7 +874,7 @@ def mk_ops(spec):
     else:
         ops += ["acc:grid(other)", "acc:condition(tensor)", "acc:inverse()", "acc:inverse(link=True)"]
         if spec["type"] not in COMPOSITE:
-            ops += ["acc:data(tensor)", "acc:unlink()"]
+            ops += ["acc:data(tensor)", "acc:unlink()", "acc:link(twin)", "acc:link(empty)"]
     return ops
 
 
@@ -1097,7 +1109,7 @@ def run_history(spec, ops):
             return "violated", problems, info
     # a transform whose parameters were removed (unlink) gets a torch.empty() buffer when it is linked again:
     # such states contain uninitialised memory by construction, so only their structure is hashed
-    with_values = not any("unlink" in op[2] for op in ops)
+    with_values = not any("unlink" in op[2] or "link(empty)" in op[2] for op in ops)
     info["final"] = h64(repr([mutfp.value_fp(o, values=with_values) for o in objs]), repr(comp))
     return "ok", problems, info
 
@@ -1170,6 +1182,99 @@ def history_depths(tier):
 
 
 # ===========================================================================
+# sub-check: derivation chains.  Every step derives a NEW object from the LAST one by a non-underscore accessor (or
+# refreshes the last one with update()); after every step EVERY earlier live object (the original and all intermediate
+# derived objects) must have the fingerprint - bitwise values, identity, _version - it had before the step.
+CHAIN_OPS = ["inverse()", "inverse(link=True)", "inverse(link,update_buffers)", "inv", "link(twin)", "link(empty)", "unlink()",
+             "copy.copy", "condition(tensor)", "data(tensor)", "grid(other)", "grid(same-object)"]
+CHAIN_OPS_COMPOSITE = ["inverse()", "inverse(link=True)", "inv", "copy.copy", "condition(tensor)", "grid(other)"]
+CHAIN_LAST = ["inverse(link=True)", "link(empty)", "link(twin)", "copy.copy", "data(tensor)", "condition(tensor)"]
+CHAIN_LAST_COMPOSITE = ["inverse(link=True)", "copy.copy", "condition(tensor)"]
+
+
+def chain_specs(tier):
+    specs = [s for s in transform_specs(tier)]
+    if tier == "quick":
+        specs = [s for s in specs if s["D"] == 2 or s["type"] == "QuaternionRotation"]
+    return specs
+
+
+def chain_alphabet(spec, last=False):
+    comp = spec["type"] in COMPOSITE
+    names = (CHAIN_LAST_COMPOSITE if comp else CHAIN_LAST) if last else (CHAIN_OPS_COMPOSITE if comp else CHAIN_OPS)
+    ops = [["mk", "last", "acc:" + n if n != "copy.copy" else n] for n in names]
+    if not last:
+        ops.append(["mut", "last", "update"])
+    return ops
+
+
+def chain_sig(spec, problem):
+    return f"C15/chain/{spec['type']}[{spec.get('params', 'parameter')},{spec.get('pre', 'fresh')}]/{problem}"
+
+
+def run_chain(spec, ops):
+    """A chain is a history in which every earlier object must stay untouched: run_history judges every `mk` step against
+    ALL existing objects; `update()` of the last object is additionally judged against all EARLIER objects here."""
+    st, obj = guarded(build, spec)
+    if st == "raises":
+        return "build-raises", [], {}
+    objs = [obj]
+    problems = []
+    info = {"nobj": 1}
+    for step, (kind, who, how) in enumerate(ops):
+        before = [mutfp.fp(o) for o in objs]
+        if kind == "mk":
+            st, new = guarded(apply_mk, spec, objs[-1], how)
+        else:
+            st, new = guarded(apply_mut, spec, objs[-1], how)
+        after = [mutfp.fp(o) for o in objs]
+        judged = range(len(objs)) if kind == "mk" else range(len(objs) - 1)
+        for k in judged:
+            if before[k] != after[k]:
+                kinds = sorted(mutfp.kinds_of_change(before[k], after[k])) or ["structure"]
+                rel = "receiver" if k == len(objs) - 1 else f"ancestor-{len(objs) - 1 - k}"
+                problems.append((f"step={how}/{rel}-" + "+".join(kinds), f"step {step} ({how} on object {len(objs) - 1}) changed object {k}: " + "; ".join(mutfp.diff(before[k], after[k])), step))
+        if st == "raises":
+            return "raises", problems, dict(info, reason=f"{how}:{type(new).__name__}")
+        if kind == "mk":
+            if new is objs[-1]:
+                return "ended", problems, dict(info, reason="accessor-returned-self")
+            objs.append(new)
+        if problems:
+            return "violated", problems, info
+    info["nobj"] = len(objs)
+    # states with uninitialised memory by construction are hashed by structure only: a never-updated transform with
+    # predicted parameters (buffer p = torch.empty), and anything linked to a parameter-less partner or unlinked
+    with_values = not (spec.get("params") == "callable" and spec.get("pre", "fresh") == "fresh")
+    with_values = with_values and not any("unlink" in op[2] or "link(empty)" in op[2] for op in ops)
+    info["final"] = h64(repr([mutfp.value_fp(o, values=with_values) for o in objs]))
+    return "ok", problems, info
+
+
+def explore_chain(acc: Acc, spec, prefix, depth):
+    last = depth == 1
+    for op in chain_alphabet(spec, last=last):
+        if prefix and prefix[-1][0] == "mut" and op[0] == "mut":
+            continue
+        ops = prefix + [op]
+        status, problems, info = run_chain(spec, ops)
+        acc.trans()
+        acc.trace("chain", depth=len(ops))
+        case = {"sub": "chain", "spec": spec, "ops": ops}
+        for problem, detail, step in problems:
+            acc.violation(chain_sig(spec, problem), case, detail, size=len(ops))
+        acc.outcome("chain", spec, ops, status, info.get("final"), info.get("reason"))
+        if status == "ok":
+            acc.state("chain", spec, info["final"])
+            if info["nobj"] >= 3:
+                acc.nontriv("chain", spec, ops)
+            if depth > 1:
+                explore_chain(acc, spec, ops, depth - 1)
+        elif status != "violated":
+            acc.undef(f"chain-{status}:{info.get('reason', '')}")
+
+
+# ===========================================================================
 def bounds(tier):
     surf = R.surface()
     return {
@@ -1181,6 +1286,10 @@ def bounds(tier):
         "accessor_receivers": len(value_specs(tier)) + len(transform_specs(tier)),
         "eval_transforms": len(eval_specs(tier)),
         "eval_methods": list(EVALS),
+        "chain_transforms": len(chain_specs(tier)),
+        "chain_depth": 3,
+        "chain_alphabet": CHAIN_OPS + ["update()"],
+        "chain_alphabet_last_level": CHAIN_LAST,
         "history_objects": len(history_specs(tier)),
         "history_depth_full_alphabet": history_depths(tier)[0],
         "history_depth_reduced_alphabet": history_depths(tier)[1],
@@ -1195,6 +1304,9 @@ def shards(tier: str, seed: int):
         out.append({"sub": "accessor", "spec": spec})
     for spec in eval_specs(tier):
         out.append({"sub": "eval", "spec": spec})
+    for spec in chain_specs(tier):
+        for op in chain_alphabet(spec):
+            out.append({"sub": "chain", "spec": spec, "first": op})
     df, dr = history_depths(tier)
     for spec in history_specs(tier):
         for op in history_alphabet(spec):
@@ -1213,6 +1325,19 @@ def run_shard(shard) -> Acc:
         run_accessor_shard(acc, shard)
     elif sub == "eval":
         run_eval_shard(acc, shard)
+    elif sub == "chain":
+        spec, op = shard["spec"], shard["first"]
+        status, problems, info = run_chain(spec, [op])
+        acc.trans()
+        acc.trace("chain", depth=1)
+        for problem, detail, step in problems:
+            acc.violation(chain_sig(spec, problem), {"sub": "chain", "spec": spec, "ops": [op]}, detail, size=1)
+        acc.outcome("chain", spec, [op], status, info.get("final"), info.get("reason"))
+        if status == "ok":
+            acc.state("chain", spec, info["final"])
+            explore_chain(acc, spec, [op], 2)
+        elif status != "violated":
+            acc.undef(f"chain-{status}:{info.get('reason', '')}")
     else:
         spec, op = shard["spec"], shard["first"]
         status, problems, info = run_history(spec, [op])
@@ -1248,6 +1373,11 @@ def replay(case):
         _, problems, _ = run_eval(spec, case["name"])
         for problem, detail in problems:
             out.append((eval_sig(spec, case["name"], problem), detail))
+    elif sub == "chain":
+        spec = case["spec"]
+        _, problems, _ = run_chain(spec, [list(o) for o in case["ops"]])
+        for problem, detail, step in problems:
+            out.append((chain_sig(spec, problem), detail))
     else:
         spec = case["spec"]
         ops = [list(o) for o in case["ops"]]
